@@ -197,8 +197,17 @@ func (m *mux) ensureContext(r *http.Request) *chi.Context {
 	if ctx.RoutePattern() != "" {
 		return ctx // already initialized
 	}
-	if !m.Router.Match(ctx, r.Method, r.URL.Path) {
+	// The request has not been routed yet (call made from a middleware).
+	// Match on a scratch context: matching on the request context would leave
+	// the pattern and parameters in it and chi would append to them again when
+	// it routes the request. Use the path chi routes on.
+	path := r.URL.RawPath
+	if path == "" {
+		path = r.URL.Path
+	}
+	rctx := chi.NewRouteContext()
+	if !m.Router.Match(rctx, r.Method, path) {
 		return nil // route not handled by chi
 	}
-	return ctx
+	return rctx
 }
